@@ -208,6 +208,8 @@ func runC10(r *Run) {
 	}
 	savers := w.CallersOf(prod, "tmstore.FinalizationStore.SaveFinalization")
 	r.Check(len(savers) == 2, "C10.4", "callers(SaveFinalization)", "", fmt.Sprintf("%v", uniqueFns(savers)))
+	r.Rule("C10.7", "restart resumes with the validator set the chain recorded: the engine's mirror configuration takes it from the InitChain result or the stored pre-initial finalization, never from the external genesis document")
+	engineInitialValidatorSet(r, "C10.7")
 	r.Expect("C10.4", 3, "init-chain guards")
 
 	// ---- C10.5
